@@ -1,11 +1,9 @@
 (* C06, part 5: reads are invisible for ever.  Two states that differ only in whether the
-   lazy split has happened yet are indistinguishable by every later script -- as long as
-   the script does not change RS or INPUTMODE (the split consults their CURRENT values,
-   unlike FS, which is saved with the record; with such a change the statement is false,
-   see [reads_invisible_rs_refuted]). *)
+   lazy split has happened yet are indistinguishable by every later script: everything the
+   split consults (FS, its regex, RS, the input mode) is saved when the record is set. *)
 From Verif Require Import Lib.Base Lib.Dyadic Lib.Utf8 Lib.Regex Gen.Consts Model.Fields.
 
-Ltac proj := cbn [line line_true fields fields_true have nf fs fs_re saved_fs saved_re ofs rs inmode outmode].
+Ltac proj := cbn [line line_true fields fields_true have nf fs fs_re saved_fs saved_re saved_rs saved_inmode ofs rs inmode outmode].
 
 Section Obs.
 Variable rx : Type.
@@ -18,7 +16,8 @@ Local Notation exec := (exec_op rx all_matches).
 
 (* everything except the split result *)
 Definition core (s : state) :=
-  (line rx s, line_true rx s, fs rx s, fs_re rx s, saved_fs rx s, saved_re rx s, ofs rx s, rs rx s, inmode rx s, outmode rx s).
+  (line rx s, line_true rx s, fs rx s, fs_re rx s, saved_fs rx s, saved_re rx s, ofs rx s, rs rx s, inmode rx s, outmode rx s,
+   saved_rs rx s, saved_inmode rx s).
 
 (* same record, same settings, same result of (having) split it *)
 Definition same (s s' : state) : Prop := core s = core s' /\ ensure s = ensure s'.
@@ -30,7 +29,8 @@ Lemma core_inj s s' :
   core s = core s' ->
   line rx s = line rx s' /\ line_true rx s = line_true rx s' /\ fs rx s = fs rx s' /\ fs_re rx s = fs_re rx s' /\
   saved_fs rx s = saved_fs rx s' /\ saved_re rx s = saved_re rx s' /\ ofs rx s = ofs rx s' /\ rs rx s = rs rx s' /\
-  inmode rx s = inmode rx s' /\ outmode rx s = outmode rx s'.
+  inmode rx s = inmode rx s' /\ outmode rx s = outmode rx s' /\
+  saved_rs rx s = saved_rs rx s' /\ saved_inmode rx s = saved_inmode rx s'.
 Proof. unfold core. intros H. injection H. intros. repeat split; assumption. Qed.
 
 Lemma ensure_core s s1 : ensure s = Ok s1 -> core s1 = core s.
@@ -59,25 +59,26 @@ Proof. intros H. split; [exact (ensure_core _ _ H)|]. rewrite H. exact (ensure_i
 (* a state whose split is done is determined by its core and its split result *)
 Lemma state_eta (s : state) :
   s = mkState rx (line rx s) (line_true rx s) (fields rx s) (fields_true rx s) (have rx s) (nf rx s)
-        (fs rx s) (fs_re rx s) (saved_fs rx s) (saved_re rx s) (ofs rx s) (rs rx s) (inmode rx s) (outmode rx s).
+        (fs rx s) (fs_re rx s) (saved_fs rx s) (saved_re rx s) (saved_rs rx s) (saved_inmode rx s)
+        (ofs rx s) (rs rx s) (inmode rx s) (outmode rx s).
 Proof. destruct s. reflexivity. Qed.
 
 (* a change of settings that the split does not consult commutes with the split *)
-Definition retune (f : bytes) (fre : option rx) (o : bytes) (m : mode) (s : state) : state :=
+Definition retune (f : bytes) (fre : option rx) (o r : bytes) (im m : mode) (s : state) : state :=
   mkState rx (line rx s) (line_true rx s) (fields rx s) (fields_true rx s) (have rx s) (nf rx s)
-          f fre (saved_fs rx s) (saved_re rx s) o (rs rx s) (inmode rx s) m.
+          f fre (saved_fs rx s) (saved_re rx s) (saved_rs rx s) (saved_inmode rx s) o r im m.
 
-Lemma ensure_retune f fre o m s :
-  ensure (retune f fre o m s) = do s1 <- ensure s; Ok (retune f fre o m s1).
+Lemma ensure_retune f fre o r im m s :
+  ensure (retune f fre o r im m s) = do s1 <- ensure s; Ok (retune f fre o r im m s1).
 Proof.
   unfold ensure_fields, retune. proj. destruct (have rx s) eqn:Eh.
   - cbn [rbind]. rewrite Eh. reflexivity.
   - destruct (split_record rx all_matches _ _ _ _ _); reflexivity.
 Qed.
 
-Lemma same_retune f fre o m s s' : same s s' -> same (retune f fre o m s) (retune f fre o m s').
+Lemma same_retune f fre o r im m s s' : same s s' -> same (retune f fre o r im m s) (retune f fre o r im m s').
 Proof.
-  intros [Hc He]. apply core_inj in Hc as (H1 & H2 & H3 & H4 & H5 & H6 & H7 & H8 & H9 & H10).
+  intros [Hc He]. apply core_inj in Hc as (H1 & H2 & H3 & H4 & H5 & H6 & H7 & H8 & H9 & H10 & H11 & H12).
   split.
   - unfold core, retune. proj. congruence.
   - rewrite !ensure_retune, He. reflexivity.
@@ -85,7 +86,7 @@ Qed.
 
 Lemma same_set_line s s' t b : same s s' -> same (set_line rx s t b) (set_line rx s' t b).
 Proof.
-  intros [Hc _]. apply core_inj in Hc as (H1 & H2 & H3 & H4 & H5 & H6 & H7 & H8 & H9 & H10).
+  intros [Hc _]. apply core_inj in Hc as (H1 & H2 & H3 & H4 & H5 & H6 & H7 & H8 & H9 & H10 & H11 & H12).
   split.
   - unfold core, set_line. proj. congruence.
   - unfold ensure_fields, set_line. proj. rewrite H3, H4, H7, H8, H9, H10. reflexivity.
@@ -103,10 +104,6 @@ Definition same_res (r r' : res (state * out)) : Prop :=
 
 Lemma same_res_refl r : same_res r r.
 Proof. destruct r as [[t w]| | |]; cbn; auto using same_refl. Qed.
-
-(* operations that consult the split settings RS / INPUTMODE are excluded *)
-Definition keeps_split_settings (o : op) : bool :=
-  match o with SetRS _ _ | SetInMode _ _ => false | _ => true end.
 
 Lemma set_field_same s s' k t :
   same s s' ->
@@ -162,10 +159,10 @@ Proof.
 Qed.
 
 Theorem exec_same s s' o :
-  same s s' -> keeps_split_settings o = true -> same_res (exec s o) (exec s' o).
+  same s s' -> same_res (exec s o) (exec s' o).
 Proof.
-  intros Hs Hk.
-  destruct o as [t|i|i t|i t|i f| |v|f|fsv r|ov|r|m|m| ]; try discriminate Hk; cbn [exec_op].
+  intros Hs.
+  destruct o as [t|i|i t|i t|t|i f| |v|f|fsv r|ov|r|m|m| ]; cbn [exec_op].
   - (* ReadRecord *) cbn [same_res]. split; [apply same_set_line; exact Hs|reflexivity].
   - (* GetField *)
     pose proof (eval_idx_same s s' i Hs) as Hi.
@@ -192,6 +189,7 @@ Proof.
     pose proof (set_field_same a b k t Hab) as Hg.
     destruct (set_field rx all_matches a k t), (set_field rx all_matches b k t);
       cbn [rbind same_res]; try contradiction; auto.
+  - (* GetlineVar *) cbn [same_res]. split; [exact Hs|reflexivity].
   - (* ModField *)
     pose proof (eval_idx_same s s' i Hs) as Hi.
     destruct (eval_idx rx all_matches s i) as [[a k]| | |], (eval_idx rx all_matches s' i) as [[b k']| | |];
@@ -209,25 +207,41 @@ Proof.
   - (* SetNF *) unfold set_nf. destruct Hs as [_ He]. rewrite He. apply same_res_refl.
   - (* ModNF *) destruct Hs as [_ He]. rewrite He. apply same_res_refl.
   - (* SetFS *)
-    destruct Hs as [Hc He]. pose proof (core_inj _ _ Hc) as (H1 & H2 & H3 & H4 & H5 & H6 & H7 & H8 & H9 & H10).
+    destruct Hs as [Hc He]. pose proof (core_inj _ _ Hc) as (H1 & H2 & H3 & H4 & H5 & H6 & H7 & H8 & H9 & H10 & H11 & H12).
     unfold set_fs. destruct (rune_count fsv >? 1).
     + destruct r as [re|]; cbn [rbind same_res]; [|reflexivity].
       split; [|reflexivity].
-      change (same (retune fsv (Some re) (ofs rx s) (outmode rx s) s) (retune fsv (Some re) (ofs rx s') (outmode rx s') s')).
-      rewrite H7, H10. apply same_retune. split; assumption.
+      change (same (retune fsv (Some re) (ofs rx s) (rs rx s) (inmode rx s) (outmode rx s) s)
+                   (retune fsv (Some re) (ofs rx s') (rs rx s') (inmode rx s') (outmode rx s') s')).
+      rewrite H7, H8, H9, H10. apply same_retune. split; assumption.
     + cbn [rbind same_res]. split; [|reflexivity].
-      change (same (retune fsv (fs_re rx s) (ofs rx s) (outmode rx s) s) (retune fsv (fs_re rx s') (ofs rx s') (outmode rx s') s')).
-      rewrite H4, H7, H10. apply same_retune. split; assumption.
+      change (same (retune fsv (fs_re rx s) (ofs rx s) (rs rx s) (inmode rx s) (outmode rx s) s)
+                   (retune fsv (fs_re rx s') (ofs rx s') (rs rx s') (inmode rx s') (outmode rx s') s')).
+      rewrite H4, H7, H8, H9, H10. apply same_retune. split; assumption.
   - (* SetOFS *)
-    destruct Hs as [Hc He]. pose proof (core_inj _ _ Hc) as (H1 & H2 & H3 & H4 & H5 & H6 & H7 & H8 & H9 & H10).
+    destruct Hs as [Hc He]. pose proof (core_inj _ _ Hc) as (H1 & H2 & H3 & H4 & H5 & H6 & H7 & H8 & H9 & H10 & H11 & H12).
     cbn [same_res]. split; [|reflexivity].
-    change (same (retune (fs rx s) (fs_re rx s) ov (outmode rx s) s) (retune (fs rx s') (fs_re rx s') ov (outmode rx s') s')).
-    rewrite H3, H4, H10. apply same_retune. split; assumption.
+    change (same (retune (fs rx s) (fs_re rx s) ov (rs rx s) (inmode rx s) (outmode rx s) s)
+                 (retune (fs rx s') (fs_re rx s') ov (rs rx s') (inmode rx s') (outmode rx s') s')).
+    rewrite H3, H4, H8, H9, H10. apply same_retune. split; assumption.
+  - (* SetRS *)
+    destruct Hs as [Hc He]. pose proof (core_inj _ _ Hc) as (H1 & H2 & H3 & H4 & H5 & H6 & H7 & H8 & H9 & H10 & H11 & H12).
+    cbn [same_res]. split; [|reflexivity].
+    change (same (retune (fs rx s) (fs_re rx s) (ofs rx s) r (inmode rx s) (outmode rx s) s)
+                 (retune (fs rx s') (fs_re rx s') (ofs rx s') r (inmode rx s') (outmode rx s') s')).
+    rewrite H3, H4, H7, H9, H10. apply same_retune. split; assumption.
+  - (* SetInMode *)
+    destruct Hs as [Hc He]. pose proof (core_inj _ _ Hc) as (H1 & H2 & H3 & H4 & H5 & H6 & H7 & H8 & H9 & H10 & H11 & H12).
+    cbn [same_res]. split; [|reflexivity].
+    change (same (retune (fs rx s) (fs_re rx s) (ofs rx s) (rs rx s) m (outmode rx s) s)
+                 (retune (fs rx s') (fs_re rx s') (ofs rx s') (rs rx s') m (outmode rx s') s')).
+    rewrite H3, H4, H7, H8, H10. apply same_retune. split; assumption.
   - (* SetOutMode *)
-    destruct Hs as [Hc He]. pose proof (core_inj _ _ Hc) as (H1 & H2 & H3 & H4 & H5 & H6 & H7 & H8 & H9 & H10).
+    destruct Hs as [Hc He]. pose proof (core_inj _ _ Hc) as (H1 & H2 & H3 & H4 & H5 & H6 & H7 & H8 & H9 & H10 & H11 & H12).
     cbn [same_res]. split; [|reflexivity].
-    change (same (retune (fs rx s) (fs_re rx s) (ofs rx s) m s) (retune (fs rx s') (fs_re rx s') (ofs rx s') m s')).
-    rewrite H3, H4, H7. apply same_retune. split; assumption.
+    change (same (retune (fs rx s) (fs_re rx s) (ofs rx s) (rs rx s) (inmode rx s) m s)
+                 (retune (fs rx s') (fs_re rx s') (ofs rx s') (rs rx s') (inmode rx s') m s')).
+    rewrite H3, H4, H7, H8, H9. apply same_retune. split; assumption.
   - (* ViewAll *) destruct Hs as [_ He]. rewrite He. apply same_res_refl.
 Qed.
 
@@ -242,16 +256,15 @@ Definition same_end (r r' : res state) : Prop :=
   end.
 
 Theorem trace_same ops : forall s s',
-  same s s' -> forallb keeps_split_settings ops = true ->
+  same s s' ->
   fst (trace rx all_matches ops s) = fst (trace rx all_matches ops s') /\
   same_end (snd (trace rx all_matches ops s)) (snd (trace rx all_matches ops s')).
 Proof.
-  induction ops as [|o ops IH]; intros s s' Hs Hk; cbn [trace].
+  induction ops as [|o ops IH]; intros s s' Hs; cbn [trace].
   - cbn [fst snd same_end]. split; [reflexivity|exact Hs].
-  - cbn [forallb] in Hk. apply andb_true_iff in Hk as [Ho Hrest].
-    pose proof (exec_same s s' o Hs Ho) as He.
+  - pose proof (exec_same s s' o Hs) as He.
     destruct (exec s o) as [[t w]| | |], (exec s' o) as [[t' w']| | |]; cbn [same_res] in He; try contradiction.
-    + destruct He as [Ht <-]. destruct (IH t t' Ht Hrest) as [H1 H2].
+    + destruct He as [Ht <-]. destruct (IH t t' Ht) as [H1 H2].
       destruct (trace rx all_matches ops t) as [ws r], (trace rx all_matches ops t') as [ws' r'].
       cbn [fst snd] in *. split; [f_equal; exact H1|exact H2].
     + cbn [fst snd same_end]. split; [reflexivity|exact He].
@@ -265,7 +278,7 @@ Definition is_read_op (o : op) : bool :=
 
 Lemma read_same s o s' w : is_read_op o = true -> exec s o = Ok (s', w) -> same s' s.
 Proof.
-  intros Hr H. destruct o as [t|i|i t|i t|i f| |v|f|fsv r|ov|r|m|m| ]; try discriminate Hr; cbn [exec_op] in H.
+  intros Hr H. destruct o as [t|i|i t|i t|t|i f| |v|f|fsv r|ov|r|m|m| ]; try discriminate Hr; cbn [exec_op] in H.
   - assert (forall a k, eval_idx rx all_matches s i = Ok (a, k) -> same a s) as Hidx.
     { intros a k E. destruct i as [x|neg d]; cbn [eval_idx] in E.
       - injection E as <- _. apply same_refl.
@@ -292,33 +305,30 @@ Proof.
     injection H as <- _. exact (same_ensure _ _ He).
 Qed.
 
-(* A read can be deleted from (or inserted into) a script without changing anything the rest
+(* A read can be deleted from (or inserted into) ANY script without changing anything the rest
    of the script outputs or how it ends. *)
 Theorem reads_invisible s o s' w ops :
-  is_read_op o = true -> exec s o = Ok (s', w) -> forallb keeps_split_settings ops = true ->
+  is_read_op o = true -> exec s o = Ok (s', w) ->
   fst (trace rx all_matches ops s') = fst (trace rx all_matches ops s) /\
   same_end (snd (trace rx all_matches ops s')) (snd (trace rx all_matches ops s)).
 Proof.
-  intros Hr He Hk. apply trace_same; [exact (read_same _ _ _ _ Hr He)|exact Hk].
+  intros Hr He. apply trace_same. exact (read_same _ _ _ _ Hr He).
 Qed.
 
 End Obs.
 
-(* With an RS change the statement is false: $0 = "a,b<NL>c" under FS=","; then RS = "";
-   then NF.  Reading $1 before the RS change gives NF = 2, not reading it gives NF = 3. *)
-Definition reads_invisible_full_statement : Prop :=
-  forall (rx : Type) (am : rx -> bytes -> list (Z * Z)) s o s' w ops,
-    is_read_op rx o = true -> exec_op rx am s o = Ok (s', w) ->
-    fst (trace rx am ops s') = fst (trace rx am ops s).
+(* FS := f for a one-character f (no regex involved) *)
+Definition set_fs_plain (rx : Type) (f : bytes) (s : state rx) : state rx :=
+  retune rx f (fs_re rx s) (ofs rx s) (rs rx s) (inmode rx s) (outmode rx s) s.
 
-Theorem reads_invisible_rs_refuted : ~ reads_invisible_full_statement.
+(* the former witness of F-C06-5 on the repaired model: $0 = "a,b<NL>c" under FS=","; then
+   [x = $1;] RS = ""; NF -- the same answer with and without the read *)
+Example reads_invisible_rs_example :
+  let am := fun (_ : unit) (_ : bytes) => @nil (Z * Z) in
+  let s0 := set_line unit (set_fs_plain unit [44] (init unit)) [97; 44; 98; 10; 99] true in
+  forall s1 w1, exec_op unit am s0 (GetField unit (IConst (FFin 1 0))) = Ok (s1, w1) ->
+  fst (trace unit am [SetRS unit []; GetNF unit] s1) = fst (trace unit am [SetRS unit []; GetNF unit] s0).
 Proof.
-  intros H.
-  pose (am := fun (_ : unit) (_ : bytes) => @nil (Z * Z)).
-  pose (s0 := set_line unit (retune unit [44] None [32] MDefault (init unit)) [97; 44; 98; 10; 99] true).
-  specialize (H unit am s0 (GetField unit (IConst (FFin 1 0)))).
-  destruct (exec_op unit am s0 (GetField unit (IConst (FFin 1 0)))) as [[s1 w1]| | |] eqn:E;
-    try (vm_compute in E; discriminate E).
-  specialize (H s1 w1 [SetRS unit []; GetNF unit] eq_refl eq_refl).
-  vm_compute in E. injection E as <- <-. vm_compute in H. discriminate H.
+  intros am s0 s1 w1 H.
+  exact (proj1 (reads_invisible unit am s0 (GetField unit (IConst (FFin 1 0))) s1 w1 _ eq_refl H)).
 Qed.
